@@ -28,6 +28,10 @@ UN = [None, "g", "kg", "oz", "lb", "ml", "cup", "tsp", "clove", "sack", "Kg", "h
 
 
 def fmt_num(x):
+    if isinstance(x, float) and "e" in repr(x):
+        x = float("%.9f" % x)       # keep literals in plain decimal notation
+        if "e" in repr(x):
+            x = 0.5
     return gen_desc.number_spellings(x)[0]
 
 
